@@ -146,4 +146,15 @@ REGISTRY = {
                       'handlers as callbacks; one thread.',
         'explanation': 'forest contracts discharged by z3 (quantified, uninterpreted reference sort)',
     },
+    'C01': {
+        'modules': ['contracts.core_handlers', 'contracts.core_dispatch'], 'level': 'proof',
+        'level_text': 'getHandlers is proved equal to the spec set HSET(root, name, channel) (handlers of components in the ghost '
+                      'subtree that are declared for the name / catch-all / global and match the channel) for every forest, by a '
+                      'recursive contract with loop invariants; addHandler/removeHandler change exactly the tables of the method and '
+                      'mark the root cache stale; every operation that changes the tree or creates a root marks the affected caches '
+                      'stale; the dispatcher clears a stale cache before lookup and builds the list from getHandlers, each handler once.',
+        'level_note': 'trusted: forest lemma G8 and termination of the recursion; sorted(); multi-channel duplicates outside the '
+                      'statement; cache coherence across histories is the invariant argument of DESIGN 3.1 over these per-operation duties.',
+        'explanation': 'handler-set contracts discharged by z3 (quantified)',
+    },
 }
